@@ -38,6 +38,9 @@ def plan(tier, seed):
     cases += [{'family': 'matrix', 'cseed': rnd.randrange(1 << 30)} for _ in range(40 if tier == 'quick' else 1000)]
     # all delayed edges of the model share one delay - the usual way delays are specified
     cases += [{'family': 'uniform_delay', 'cseed': rnd.randrange(1 << 30)} for _ in range(40 if tier == 'quick' else 1000)]
+    # one source variable with delayed edges into three or four different target groups (vectorized: several edge groups share the
+    # source's delay buffer)
+    cases += [{'family': 'fan_out_groups', 'cseed': rnd.randrange(1 << 30)} for _ in range(24 if tier == 'quick' else 500)]
     return cases
 
 
@@ -102,12 +105,16 @@ def make_case(case, ctx):
         want = case.get('want')
         dt = 1e-3
         for attempt in range(400):
-            spec, _, _ = c04.make_spec({'cseed': rnd.randrange(1 << 30)}, ctx['excluded'])
+            if case.get('family') == 'fan_out_groups':
+                # one (merged) source variable with delayed edges into three or four different target node types
+                spec = gen.gen_fanout_net(rnd)
+            else:
+                spec, _, _ = c04.make_spec({'cseed': rnd.randrange(1 << 30)}, ctx['excluded'])
             from vp.ref import _walk
             edges = spec['circ'].get('edges', [])
             if not edges:
                 continue
-            pfrac = rnd.choice([0.3, 0.6, 1.0])
+            pfrac = rnd.choice([0.3, 0.6, 1.0]) if case.get('family') != 'fan_out_groups' else 1.0
             nd = 0
             uniform = case.get('family') == 'uniform_delay'
             common = round((rnd.randint(2, 9) + rnd.choice([0.0, 0.0, 0.3, -0.3, 0.45])) * dt, 7)
@@ -133,7 +140,7 @@ def make_case(case, ctx):
             if nd == 0:
                 continue
             solver = 'heun' if want == 'delay_heun' else 'euler'
-            vec = rnd.random() < 0.5
+            vec = rnd.random() < 0.5 or case.get('family') == 'fan_out_groups'
             r2 = delay_risks(spec, solver) | c04.vec_risks(spec)
             f, r = gen.features(spec)
             r2 |= set(r) - {'vec_partial_input_default'}
